@@ -99,7 +99,7 @@ struct WFd {
   static constexpr bool checked = false;
   int fd;
   nop::FdWriter w;
-  explicit WFd(size_t) : fd(fakefd_create()), w(fd) {}
+  explicit WFd(size_t) : fd(fakefd_create()), w(fd) { fakefd_get(fd)->chunk = 3; }  // the descriptor accepts at most 3 bytes per write()
   ~WFd() { w.Clear(); fakefd_destroy(fd); }
   template <class T> St write(const T& v) { nop::Serializer<nop::FdWriter*> s{&w}; return s.Write(v); }
   size_t size() const { return fakefd_get(fd)->data.size(); }
@@ -235,7 +235,7 @@ struct RFd {
   static constexpr int lacks = CapHandle | CapSkip;
   int fd;
   nop::FdReader r;
-  RFd(const uint8_t* d, size_t n) : fd(fakefd_create(d, n)), r(fd) {}
+  RFd(const uint8_t* d, size_t n) : fd(fakefd_create(d, n)), r(fd) { fakefd_get(fd)->chunk = 3; }  // at most 3 bytes per read(), as a pipe may
   ~RFd() { r.Clear(); fakefd_destroy(fd); }
   template <class T> St read(T* v) { nop::Deserializer<nop::FdReader*> s{&r}; return s.Read(v); }
   size_t consumed() const { return fakefd_get(fd)->rpos; }
